@@ -313,9 +313,20 @@ pub fn cmp_struct_order(o: &Obs, m: &MNode, by_name: bool, whole: &[Block]) -> F
     let mut want = Vec::new();
     preorder(o, Some(m), by_name, true, &mut want);
     let got: Vec<Body> = whole.iter().map(body).collect();
-    if sorted(want.clone()) != sorted(got.clone()) {
-        // not the same set of structs: C03's business, not an order question
+    let unordered = |v: &Vec<Body>| sorted(v.iter().map(|b| sorted(b.clone())).collect::<Vec<_>>());
+    if unordered(&want) != unordered(&got) {
+        // not the same set of structs / fields: C03's business, not an order question
         return None;
+    }
+    if sorted(want.clone()) != sorted(got.clone()) {
+        // same structs with the same fields, but some struct lists its fields in another order inside the whole
+        // output than when its element is rendered on its own: the order depends on the context
+        let odd = got.iter().position(|g| !want.contains(g)).unwrap_or(0);
+        return bad(
+            if by_name { "field_order_depends_on_context_by_name" } else { "field_order_depends_on_context" },
+            "/",
+            format!("struct {:?} of the whole output lists its fields as {:?}, unlike the same element rendered alone", whole[odd].name, got[odd].iter().map(|f| f.1.clone()).collect::<Vec<_>>()),
+        );
     }
     if want != got {
         let i = want.iter().zip(got.iter()).position(|(a, b)| a != b).unwrap_or(0);
